@@ -122,6 +122,9 @@ type Exec struct {
 	clockNS           int64
 	inGo              int
 	parked            map[*Cell][]parkedGo
+	mapOrderChoices   int
+	gid, gidNext      int                   // current sequentialised goroutine (0 = the harness's own)
+	rdHeld            map[*Cell]map[int]int // RWMutex read locks held, per goroutine
 	race              *raceState
 	fnStack           []*ssa.Function
 }
@@ -475,14 +478,26 @@ func (x *Exec) runGoroutine(g parkedGo) {
 	x.inGo++
 	start := x.steps
 	depth, nfn := x.depth, len(x.fnStack)
-	if x.race != nil {
-		if g.gid == 0 {
-			g.gid = x.race.spawn()
-		}
-		saved := x.race.gid
-		x.race.gid = g.gid
-		defer func() { x.race.gid = saved }()
+	fresh := g.gid == 0
+	if fresh {
+		x.gidNext++
+		g.gid = x.gidNext
 	}
+	savedGid := x.gid
+	if x.race != nil {
+		x.race.ensure(g.gid)
+		if fresh {
+			x.race.spawn(g.gid)
+		}
+		x.race.gid = g.gid
+	}
+	x.gid = g.gid
+	defer func() {
+		x.gid = savedGid
+		if x.race != nil {
+			x.race.gid = savedGid
+		}
+	}()
 	defer func() {
 		x.inGo--
 		x.depth, x.fnStack = depth, x.fnStack[:nfn]
